@@ -427,10 +427,22 @@ def run_history(case, pool, mode, viols, pass_name):
             from gbasis.integrals.kinetic_energy import kinetic_energy_integral as _kin2
             from gbasis.spherical import generate_transformation as _gt
 
+            from gbasis.integrals.moment import moment_integral as _mom
+            from gbasis.integrals.nuclear_electron_attraction import nuclear_electron_attraction_integral as _nuc
+            from gbasis.integrals.point_charge import point_charge_integral as _pc2
+            from gbasis.parsers import parse_gbs as _pg, parse_nwchem as _pn
+
+            def more_():
+                b_ = list(pool["basis"])
+                return [cm.call(_pc2, b_, np.array(pool["pts"]), np.array(pool["chg"])), cm.call(_nuc, b_, np.array(pool["nuc"]), np.array(pool["Z"])),
+                        cm.call(_mom, b_, np.array(pool["origin"]), np.array(pool["morders"])), cm.call(_pn, pool["files"]["nwchem"]), cm.call(_pg, pool["files"]["gbs"])]
+
             def probes():
                 b_ = list(pool["basis"])
                 out_ = [cm.call(overlap_integral, b_), cm.call(_kin2, b_), cm.call(_eb, b_, np.array(pool["pts"])),
                         cm.call(overlap_integral, b_, tol_screen=0.5), cm.call(overlap_integral, b_, tol_screen=1e-1), cm.call(overlap_integral, b_, tol_screen=1e-6)]
+                for x_ in more_():
+                    out_.append(x_ if isinstance(x_, (np.ndarray, cm.Raised)) else np.concatenate([np.ravel(a_) for a_ in mi.arrays_of(x_)] or [np.zeros(0)]))
                 for sh_ in b_:
                     out_.append(np.array(sh_.angmom_components_cart))
                     out_.append(cm.call(lambda x_: np.array(x_.norm_prim_cart), sh_))
@@ -450,6 +462,8 @@ def run_history(case, pool, mode, viols, pass_name):
                         blk_ = cm.call(_Ov.construct_array_contraction, bl_[ia_], bl_[ib_], tol_screen=tol_)
                         if isinstance(blk_, np.ndarray):
                             handed.append(blk_)
+            for x_ in more_():  # integral arrays and parsed basis-set data handed out by other public functions
+                handed += [x_] if isinstance(x_, np.ndarray) else ([] if isinstance(x_, cm.Raised) else mi.arrays_of(x_))
             for sh_ in pool["basis"]:
                 handed += [sh_.angmom_components_cart, cm.call(lambda x_: x_.norm_prim_cart, sh_),
                            cm.call(_gt, int(sh_.angmom), sh_.angmom_components_cart, tuple(sh_.angmom_components_sph), "left")]
